@@ -28,6 +28,36 @@ type Ctx struct {
 	Verif string // verification directory (frozen tables)
 
 	tlg *TLG
+
+	declIdx map[*types.Func]declRef
+}
+
+type declRef struct {
+	fd *ast.FuncDecl
+	pk *packages.Package
+}
+
+// declOfObj: the syntax of a module function given its types object.
+func (c *Ctx) declOfObj(fo *types.Func) (*ast.FuncDecl, *packages.Package) {
+	if fo == nil {
+		return nil, nil
+	}
+	if c.declIdx == nil {
+		c.declIdx = map[*types.Func]declRef{}
+		for _, pk := range c.P.Pkgs {
+			for _, f := range pk.Syntax {
+				for _, d := range f.Decls {
+					if fd, ok := d.(*ast.FuncDecl); ok && fd.Body != nil {
+						if o, ok := pk.TypesInfo.Defs[fd.Name].(*types.Func); ok {
+							c.declIdx[o] = declRef{fd, pk}
+						}
+					}
+				}
+			}
+		}
+	}
+	r := c.declIdx[fo.Origin()]
+	return r.fd, r.pk
 }
 
 func NewCtx(p *core.Prog) *Ctx {
@@ -286,4 +316,47 @@ func instrPos(in ssa.Instruction) token.Pos {
 		return in.Parent().Pos()
 	}
 	return token.NoPos
+}
+
+// withHelpers: node plus the (normalised) bodies of the module functions it
+// calls, transitively up to depth, never entering skip (the function that
+// contains node: recursion through the dispatcher is not a helper). A rule that
+// reads a case clause lexically sees the code the clause runs even when it
+// has been moved into helpers.
+func (c *Ctx) withHelpers(pk *packages.Package, node ast.Node, skip *ast.FuncDecl, depth int) []helperBody {
+	out := []helperBody{{node, pk, nil}}
+	seen := map[*ast.FuncDecl]bool{}
+	var visit func(pk *packages.Package, n ast.Node, d int)
+	visit = func(pk *packages.Package, n ast.Node, d int) {
+		if d <= 0 {
+			return
+		}
+		ast.Inspect(n, func(x ast.Node) bool {
+			call, ok := x.(*ast.CallExpr)
+			if !ok {
+				return true
+			}
+			fo := calleeObj(pk.TypesInfo, call)
+			if fo == nil || fo.Pkg() == nil || !strings.HasPrefix(fo.Pkg().Path(), core.ModPath) {
+				return true
+			}
+			hd, hpk := c.declOfObj(fo)
+			if hd == nil || seen[hd] || hd == skip || (skip != nil && hd.Name.Pos() == skip.Name.Pos()) {
+				return true
+			}
+			seen[hd] = true
+			nd := normDecl(hpk, hd)
+			out = append(out, helperBody{nd.Body, hpk, nd})
+			visit(hpk, nd.Body, d-1)
+			return true
+		})
+	}
+	visit(pk, node, depth)
+	return out
+}
+
+type helperBody struct {
+	node ast.Node
+	pk   *packages.Package
+	decl *ast.FuncDecl // nil for the starting node
 }
